@@ -12,7 +12,7 @@ from mc.props import c03
 ID = 'C19'
 ENGINE = 'E1 full product with before/after snapshots of every buffer handed to the library'
 RULE = ("full product dtype x byte order x shape {scalar, (R,2)} x layout {C, F, strided, read-only, view into a "
-        "larger buffer} x cast x source kind {inline, dict, structured array, HDF5, mixed inline + dict} x input chunk x window x outcome "
+        "larger buffer} x cast x source kind {inline, dict, structured array, HDF5, mixed inline + dict} x frame with / without index type x input chunk x window x outcome "
         "{valid write, failing write: unsupported second channel, bad window}; before the write the harness snapshots "
         "the root buffer of every array (so memory around views is covered), the dict's keys and value identities, the "
         "structured array and the SHA-256 of the HDF5 file; after the write (success or exception) all must be "
@@ -52,6 +52,11 @@ def cases(shard, tier):
             ['none', 'bad-second-channel', 'bad-window']):
         yield {'dtype': d, 'src': src, 'bo': bo, 'shape': shape, 'layout': layout, 'cast': cast, 'chunk': chunk,
                'win': win, 'fail': fail}
+        if shape == 's' and fail == 'none':
+            # the first channel is the index of a frame WITH an index type (spacing, direction, range are worked out
+            # from it; the palette values are neither uniform nor monotonic)
+            yield {'dtype': d, 'src': src, 'bo': bo, 'shape': shape, 'layout': layout, 'cast': cast, 'chunk': chunk,
+                   'win': win, 'fail': fail, 'itype': 'BOREHOLE-DEPTH'}
 
 
 def _root(arr):
@@ -89,6 +94,8 @@ def _run(c, np):
     chans = [ch0, {'dtype': 'float32', 'bo': '<', 'shape': [rows], 'pat': [0x3F800000, 0x40000000, 0x40400000],
                    'layout': c['layout'] if c['layout'] != 'F' else 'C', 'cast': None}]
     sp = c03.make_spec({'src': 'dict' if c['src'] == 'mixed' else c['src'], 'vrl': 8192, 'chans': chans, 'chunk': c['chunk']})
+    if c.get('itype'):
+        [op for op in sp['ops'] if op.get('kind') == 'frame'][0]['kw']['index_type'] = c['itype']
     if c['src'] == 'mixed':
         # the first channel's array is given at creation, the second one through the dict passed to write()
         arr0 = sp['write']['data']['$datadict'].pop('CH0')
